@@ -1077,7 +1077,7 @@ class FnAnalysis:
             cand = sorted(nodes, key=lambda x: repr(_skey_of(x)))
             node = None
             for x in cand:
-                if not any(y is not x and y.args[0].mentions(x) for y in cand):
+                if not any(y is not x and y.mentions(x) for y in cand):     # outermost: not inside another node (its arms hold only under its case)
                     node = x
                     break
             node = node or cand[0]
